@@ -44,7 +44,7 @@ static void hk_free(const Args &a) {
     Obj &o = obj_get(id, k.c_str());
     if (k == "hkdf") ascon_hkdf_free((ascon_hkdf_state_t *)o.mem); else ascon_hkdfa_free((ascon_hkdfa_state_t *)o.mem);
     Ev ev("hkdf.free"); ev.s("kind", k).n("obj", id);
-    if (a.num("dump_raw")) ev.b("raw", (const uint8_t *)o.mem, o.size);
+    if (a.num("dump_raw")) ev.n("wipe", a.num("wipe")).b("raw", (const uint8_t *)o.mem, o.size);
     ev.emit(); obj_del(id);
 }
 static void os_hkdf(const Args &a) {
